@@ -362,6 +362,9 @@ class Ctx:
                     None: []}[san]
         outp = os.path.join(self.work, out)
         base = ["-g", "-O1", "-DIGRIS_VERIF=1", "-I" + REPO, "-I" + HARNESS, "-w"] + sanflags + list(flags)
+        cov = bool(os.environ.get("VERIF_COV")) and (cc or "g++") in ("g++", "gcc")     # bin/covaudit only: line coverage of the drivers
+        if cov:
+            base += ["--coverage", "-fprofile-update=atomic"]
         objfiles = list(objs)
         jobs = []
         for i, s in enumerate(srcs):
@@ -377,7 +380,7 @@ class Ctx:
             o, _ = p.communicate(timeout=900)
             if p.returncode != 0:
                 raise InfraError("compile failed: %s\n%s" % (" ".join(cmd), o.decode("utf8", "replace")[-4000:]))
-        link = [("g++" if (cc or "g++") in ("g++", "gcc") else "clang++")] + sanflags + objfiles + ["-o", outp, "-lpthread"] + list(libs)
+        link = [("g++" if (cc or "g++") in ("g++", "gcc") else "clang++")] + sanflags + objfiles + ["-o", outp, "-lpthread"] + list(libs) + (["--coverage"] if cov else [])
         self.sh(link, timeout=300)
         return outp
 
@@ -736,6 +739,9 @@ class Ctx:
         raise InfraError("specification check failed (%s):\n%s" % (what, (r.violation or r.out)[-3000:]))
 
     def cleanup(self):
+        if os.environ.get("VERIF_COV"):
+            log("coverage build kept in", self.work)
+            return
         shutil.rmtree(self.work, ignore_errors=True)
         try:
             os.rmdir(os.path.join(VERIF, "build"))
